@@ -264,6 +264,10 @@ package codegen
 //@   at `atomic.AddInt32(&ec.deferred, int32(len(deferred)))` requires out.Invalids == 0 && calls(Dispatch) == 1
 //@   callsite processDeferredGroup: requires calls(Dispatch) == 1
 //@   ensures calls(Dispatch) <= 1
+// C13: a deferred group's field set owns its field list - it grows by AddField (an append) and must not share a
+// backing array with the fields the object itself was collected into, whose initial payload is still to be written:
+// it is built from a fresh one-element literal, never from a window onto `fields`
+//@   callsite NewFieldSet: requires argtext0 == "fields" || argtext0 == "[]graphql.CollectedField{field}"
 
 // executableSchema.Schema(): a read-only getter (needed so that evaluating `ec.Schema()` between the gate test and
 // the constructor call cannot change DisableIntrospection).
